@@ -191,6 +191,7 @@ def witness_cases(thorough: bool):
             if p + n <= 8 * big:
                 cases.append((big, p, n))
     cases.append((big, 8 * big, 0))
+    cases.append(("wide", 3, 16384))
     if thorough:
         for p in range(0, 8 * 5 + 1):
             for n in range(0, 8 * 5 - p + 1):
@@ -210,7 +211,7 @@ def witness_search(ctx: Ctx, thorough: bool):
         try:
             for pat in PATTERNS:
                 for L, p, n in cases:
-                    buf = pat[:L]
+                    buf = (pat * 160)[:2049] if L == "wide" else pat[:L]
                     obj = BytesObj(buf, cls="RawPacketData", pos=p)
                     kind, got = h.outcome(f"obj.{meth}(n)", PK, obj=obj, n=n)
                     bits = _bits(buf)[p:p + n]
@@ -236,7 +237,7 @@ def witness_search(ctx: Ctx, thorough: bool):
     try:
         for pat in PATTERNS[:2]:
             for L, p, n in cases:
-                buf = pat[:L]
+                buf = (pat * 160)[:2049] if L == "wide" else pat[:L]
                 kind, got = h.outcome("_extract_bits(buf, p, n)", PK, buf=buf, p=p, n=n)
                 bits = _bits(buf)[p:p + n]
                 want = int(bits, 2) if bits else 0
